@@ -452,6 +452,21 @@ func runC01(c *Checker) {
 		case "PacketACK":
 			pkt, acc := acceptFact(st.Block())
 			okk := acc && isLoadOfField(st.Val, fSeq) && unwrapLoadAlloc(st.Val).(*ssa.UnOp).X.(*ssa.FieldAddr).X == pkt
+			if !okk && acc && isLoadOfField(st.Val, fRecvSeq) {
+				// under Seq == recvSeq the expected number is the accepted one, as long as it is read
+				// before recvSeq is advanced
+				ld, _ := unwrapLoadAlloc(st.Val).(ssa.Instruction)
+				stale := false
+				for _, adv := range w.Stores(fRecvSeq) {
+					if adv.Parent() == rl && ld != nil && pathExists(adv, ld, func(in ssa.Instruction) bool {
+						h := loopHeadOf(rl)
+						return h != nil && in.Block() == h
+					}) {
+						stale = true
+					}
+				}
+				okk = ld != nil && !stale
+			}
 			c.decide(okk, "WIN-1", "receiveLoop|ACK carries the accepted Seq", instrPos(st), "ACK.Seq = Seq of the packet accepted on this leg",
 				"the ACK does not carry the sequence number of the packet just accepted")
 			// the ACK send precedes the advance (so ACK.Seq, if read from recvSeq, would still be right) - informational
